@@ -34,7 +34,7 @@ m = {
                  'kind_free_text': 'explicit TLA+ specification (spec/*.tla): TLC model-checks Level A / Level B instances and emits the labelled transition system; a Rust harness replays it on the real code and records traces; TLC validates every trace event against Level A (Trace_*.tla)'}],
     'checks': checks,
     'not_applicable': na,
-    'notes': 'quick tier: seeded samples of the LTS edge cover + random walks on every configuration; thorough tier: complete edge cover. Run groups are cached under /verif/work keyed by a content hash of /repo sources, the specification, the harness, tier and seed.',
+    'notes': 'quick tier: seeded samples of the LTS edge cover + random walks on every configuration; thorough tier: complete edge cover. Run groups are cached under /verif/work keyed by a content hash of /repo sources, the specification, the harness, tier and seed. spec_ext/ holds specification modules that extend Level B (MemFS: the flat string-keyed map of MemoryFS) and are model-checked by spec_ext/run.sh; they are not the deciding check of any property (DESIGN.md 14.z).',
 }
 json.dump(m, open('/verif/MANIFEST.json', 'w'), indent=1)
 print('checks:', [c['property_id'] for c in checks], 'not yet:', [x['property_id'] for x in na])
